@@ -95,6 +95,8 @@ def read_stream(run, drv, n_cases, malformed=False, cases=None):
             try:
                 d = L._split_index(G.index_py(ix))
                 i_split = G.split_canon(d)
+            except TimeoutError:      # a slow box is an infrastructure problem (exit 2), never a verdict
+                raise
             except Exception:  # noqa: BLE001
                 i_split = ["err"]
         run.count("read.outcome", impl[0] + ("/" + impl[1][1] if impl[0] == "ok" else ""))
@@ -116,6 +118,8 @@ def read_stream(run, drv, n_cases, malformed=False, cases=None):
                 index = G.index_py(ix)
                 try:
                     dr = dense[index]
+                except TimeoutError:      # a slow box is an infrastructure problem (exit 2), never a verdict
+                    raise
                 except Exception:  # noqa: BLE001
                     dr = None
             if dr is None:
@@ -130,6 +134,8 @@ def read_stream(run, drv, n_cases, malformed=False, cases=None):
                     try:
                         tl = G.torch_leaf_index(dense, index, feats)
                         dense_ok = all(torch.equal(tl[k], G.get_leaf(dr, k)) for k, _ in feats)
+                    except TimeoutError:      # a slow box is an infrastructure problem (exit 2), never a verdict
+                        raise
                     except Exception:  # noqa: BLE001
                         dense_ok = False
                     if dense_ok:
@@ -140,6 +146,8 @@ def read_stream(run, drv, n_cases, malformed=False, cases=None):
             # e.g. an empty lazy stack (all-False mask): its entries cannot be read, its batch size can
             try:
                 db = tuple(G.dense_of(ms, sd)[G.index_py(ix)].batch_size)
+            except TimeoutError:      # a slow box is an infrastructure problem (exit 2), never a verdict
+                raise
             except Exception:  # noqa: BLE001
                 db = None
             if db is not None and tuple(r.batch_size) != db:
@@ -199,6 +207,8 @@ def write_stream(run, drv, n_cases):
             try:
                 idx2 = index
                 ibs = tuple(torch.zeros(tuple(dense.batch_size))[idx2].shape) if dense.batch_size or ix else ()
+            except TimeoutError:      # a slow box is an infrastructure problem (exit 2), never a verdict
+                raise
             except Exception:  # noqa: BLE001
                 ibs = None
             if ibs is None:
@@ -220,11 +230,15 @@ def write_stream(run, drv, n_cases):
                 try:
                     write(L)
                     impl = G.members_canon(L, feats)
+                except TimeoutError:      # a slow box is an infrastructure problem (exit 2), never a verdict
+                    raise
                 except Exception:  # noqa: BLE001
                     impl = ["err"]
                 try:
                     write(dense)
                     dr = dense
+                except TimeoutError:      # a slow box is an infrastructure problem (exit 2), never a verdict
+                    raise
                 except Exception:  # noqa: BLE001
                     dr = None
         run.count("write.outcome", how + ":" + impl[0])
@@ -250,6 +264,8 @@ def write_stream(run, drv, n_cases):
                 diff = G.same_td(S, dr)
                 if diff is None:
                     diff = G.same_td(torch.stack([m.clone() for m in L.tensordicts], sd), dr)
+            except TimeoutError:      # a slow box is an infrastructure problem (exit 2), never a verdict
+                raise
             except Exception as e:  # noqa: BLE001
                 diff = f"members can no longer be stacked: {type(e).__name__}"
             if diff and not G.has_dup_targets(ix):
@@ -331,6 +347,8 @@ def shape_stream(run, drv, n_cases, exhaustive=False):
                     r = L.permute(*op[1:]); impl = one(r)
                 else:
                     r = L.unbind(op[1]); impl = ["seq"] + [one(x) for x in r]
+            except TimeoutError:      # a slow box is an infrastructure problem (exit 2), never a verdict
+                raise
             except Exception:  # noqa: BLE001
                 r, impl = None, ["err"]
             try:
@@ -344,6 +362,8 @@ def shape_stream(run, drv, n_cases, exhaustive=False):
                     dr = dense.permute(*op[1:])
                 else:
                     dr = dense.unbind(op[1])
+            except TimeoutError:      # a slow box is an infrastructure problem (exit 2), never a verdict
+                raise
             except Exception:  # noqa: BLE001
                 dr = None
         run.count("shape.outcome", op[0] + ":" + impl[0])
@@ -413,10 +433,14 @@ def cat_stream(run, drv, n_cases):
             try:
                 r = torch.cat(Ls, dim)
                 impl = ["ok", G.impl_kind(r)] + G.td_canon(r, feats)
+            except TimeoutError:      # a slow box is an infrastructure problem (exit 2), never a verdict
+                raise
             except Exception:  # noqa: BLE001
                 r, impl = None, ["err"]
             try:
                 dr = torch.cat(Ds, dim)
+            except TimeoutError:      # a slow box is an infrastructure problem (exit 2), never a verdict
+                raise
             except Exception:  # noqa: BLE001
                 dr = None
         run.count("cat.outcome", impl[0])
@@ -477,6 +501,8 @@ def misc_stream(run, drv, n_cases):
                 for j, (b, k) in enumerate(ops):
                     try:
                         L, ms = G.mk_lazy(b, k, sd, feats)
+                    except TimeoutError:      # a slow box is an infrastructure problem (exit 2), never a verdict
+                        raise
                     except Exception:  # noqa: BLE001
                         L = None
                         break
@@ -489,10 +515,14 @@ def misc_stream(run, drv, n_cases):
                 try:
                     r = torch.stack(Ls, dim)
                     impl = ["ok", G.impl_kind(r)] + G.td_canon(r, feats)
+                except TimeoutError:      # a slow box is an infrastructure problem (exit 2), never a verdict
+                    raise
                 except Exception:  # noqa: BLE001
                     r, impl = None, ["err"]
                 try:
                     dr = torch.stack(Ds, dim)
+                except TimeoutError:      # a slow box is an infrastructure problem (exit 2), never a verdict
+                    raise
                 except Exception:  # noqa: BLE001
                     dr = None
                 if not (-r_full - 1 <= dim <= r_full):
@@ -513,6 +543,8 @@ def misc_stream(run, drv, n_cases):
                         order.insert(arg, new)
                     impl = ["ok", G.impl_kind(L)] + G.td_canon(L, feats)
                     r = L
+                except TimeoutError:      # a slow box is an infrastructure problem (exit 2), never a verdict
+                    raise
                 except Exception:  # noqa: BLE001
                     r, impl = None, ["err"]
                 dr = G.dense_of(order, sd) if r is not None else None
@@ -524,11 +556,15 @@ def misc_stream(run, drv, n_cases):
                     L.update_(v.clone())
                     impl = G.members_canon(L, feats)
                     r = torch.stack([m.clone() for m in ms], sd)
+                except TimeoutError:      # a slow box is an infrastructure problem (exit 2), never a verdict
+                    raise
                 except Exception:  # noqa: BLE001
                     r, impl = None, ["err"]
                 try:
                     dense.update_(v.clone())
                     dr = dense
+                except TimeoutError:      # a slow box is an infrastructure problem (exit 2), never a verdict
+                    raise
                 except Exception:  # noqa: BLE001
                     dr = None
         run.count("misc.outcome", kind + ":" + impl[0])
@@ -585,10 +621,14 @@ def two_level_stream(run, drv, n_cases):
                     impl = ["ok", ["kind", "empty"], ["bs"] + list(r.batch_size)]
                 else:
                     impl = ["ok", "K"] + G.td_canon(r, feats)
+            except TimeoutError:      # a slow box is an infrastructure problem (exit 2), never a verdict
+                raise
             except Exception:  # noqa: BLE001
                 r, impl = None, ["err"]
             try:
                 dr = DD[index]
+            except TimeoutError:      # a slow box is an infrastructure problem (exit 2), never a verdict
+                raise
             except Exception:  # noqa: BLE001
                 dr = None
         # which outer branch? (model says); the model covers: no integer tensor on the outer stack dim, masks of rank 1 on it
@@ -681,10 +721,14 @@ def shape2_stream(run, drv, n_cases):
                 else:
                     kindv = ["kind", type(r).__name__]
                 impl = ["ok", kindv] + G.td_canon(r, feats)
+            except TimeoutError:      # a slow box is an infrastructure problem (exit 2), never a verdict
+                raise
             except Exception:  # noqa: BLE001
                 r, impl = None, ["err"]
             try:
                 dr = f(DD)
+            except TimeoutError:      # a slow box is an infrastructure problem (exit 2), never a verdict
+                raise
             except Exception:  # noqa: BLE001
                 dr = None
         run.count("shape2.outcome", op[0] + ":" + impl[0])
@@ -761,10 +805,14 @@ def apply_stream(run, drv, n_cases):
                     impl = ["ok"] + ["true" if v else "false" for v in r]
                 else:
                     impl = G.members_canon(r, feats) if isinstance(r, O.LazyStackedTensorDict) else ["ok", "dense"] + G.td_canon(r, feats)
+            except TimeoutError:      # a slow box is an infrastructure problem (exit 2), never a verdict
+                raise
             except Exception:  # noqa: BLE001
                 r, impl = None, ["err"]
             try:
                 dr = f(D, Do)
+            except TimeoutError:      # a slow box is an infrastructure problem (exit 2), never a verdict
+                raise
             except Exception:  # noqa: BLE001
                 dr = None
         run.corr("apply", case, impl, model)
@@ -858,10 +906,14 @@ def resize_stream(run, drv, n_cases):
                     impl = ["ok"] + [piece_canon(p, feats) for p in r]
                 else:
                     impl = G.members_canon(r, feats)
+            except TimeoutError:      # a slow box is an infrastructure problem (exit 2), never a verdict
+                raise
             except Exception:  # noqa: BLE001
                 r, impl = None, ["err"]
             try:
                 dr = f(D)
+            except TimeoutError:      # a slow box is an infrastructure problem (exit 2), never a verdict
+                raise
             except Exception:  # noqa: BLE001
                 dr = None
         run.count("resize.outcome", op[0] + ":" + impl[0])
@@ -884,6 +936,96 @@ def resize_stream(run, drv, n_cases):
             run.oracle_ok("resize_raises")
 
 
+def out_stream(run, drv, n_cases):
+    """correspondence + oracle for torch.cat / torch.stack of lazy stacks with out=<lazy stack>
+    (model: Model/C08Out.lean): the members of `out` afterwards"""
+    from tensordict import LazyStackedTensorDict
+    rng = run.rng
+    feats = G.FEATS_PLAIN
+    fs = Raw("(feats" + "".join(" (" + " ".join([k] + [str(x) for x in f]) + ")" for k, f in feats) + ")")
+    reqs, metas = [], []
+    for _ in range(n_cases):
+        rank = rng.choice([0, 1, 1, 2])
+        bs = tuple(rng.choice([1, 2, 3]) for _ in range(rank))
+        sd = rng.randint(0, rank)
+        r = rank + 1
+        if rng.random() < 0.55:
+            dim = rng.randrange(-r, r)
+            dimn = dim % r
+            nops = rng.randint(1, 3)
+            n0 = rng.randint(1, 3)
+            ops = []
+            for j in range(nops):
+                bsj, nj = list(bs), n0
+                if dimn == sd:
+                    nj = rng.randint(1, 3)
+                elif rng.random() < 0.8:
+                    md = dimn if dimn < sd else dimn - 1
+                    bsj[md] = rng.choice([1, 2, 3])
+                ops.append((tuple(bsj), nj))
+            sdo = rng.randrange(r)
+            metas.append(("cat", sd, dim, sdo, ops))
+            reqs.append(sx("c08.catout", sd, dim, sdo, fs, *[Raw(sx("op", ["bs"] + list(b), n)) for b, n in ops]))
+        else:
+            n = rng.randint(1, 3)
+            k = rng.randint(1, 3)
+            dim = rng.randrange(r + 1)
+            sdo = rng.randrange(r + 1)
+            metas.append(("stack", sd, dim, sdo, (bs, n, k)))
+            reqs.append(sx("c08.stackout", sd, dim, sdo, fs, ["bs"] + list(bs), n, k))
+    answers = G.ask_all(drv, reqs)
+    for (fn, sd, dim, sdo, spec), a in zip(metas, answers):
+        model = parse_sx(a)
+        case = {"fn": fn, "sd": sd, "dim": dim, "out_sd": sdo, "operands": [list(x) if isinstance(x, tuple) else x for x in (spec if fn == "cat" else [spec])]}
+        run.case(("out", fn, sd, dim, sdo, str(spec)))
+        with time_limit(180):
+            ops = spec if fn == "cat" else [(spec[0], spec[1])] * spec[2]
+            Ls, Ds = [], []
+            for j, (b, n) in enumerate(ops):
+                L, ms = G.mk_lazy(b, n, sd, feats)
+                for m in ms:
+                    for kk, _ in feats:
+                        G.get_leaf(m, kk).add_(j * 1000000)
+                Ls.append(L)
+                Ds.append(G.dense_of(ms, sd))
+            try:
+                dr = torch.cat(Ds, dim) if fn == "cat" else torch.stack(Ds, dim)
+            except TimeoutError:
+                raise
+            except Exception:  # noqa: BLE001
+                dr = None
+            impl, O_ = ["err"], None
+            if dr is not None:
+                obs = list(dr.batch_size)
+                n_o = obs.pop(sdo)
+                O_, oms = G.mk_lazy(tuple(obs), n_o, sdo, feats) if n_o > 0 else (None, None)
+                if O_ is not None:
+                    for m in oms:
+                        for kk, _ in feats:
+                            G.get_leaf(m, kk).add_(9 * 1000000)
+                    try:
+                        res = torch.cat(Ls, dim, out=O_) if fn == "cat" else torch.stack(Ls, dim, out=O_)
+                        impl = G.members_canon(O_, feats)
+                    except TimeoutError:
+                        raise
+                    except Exception:  # noqa: BLE001
+                        impl = ["err"]
+        run.count("out.outcome", fn + ":" + impl[0])
+        if dr is not None and O_ is not None:
+            run.corr("out_lazy", case, impl, model)
+            if impl[0] == "ok":
+                # the caller's member objects hold the result
+                diff = G.same_td(torch.stack([m.clone() for m in oms], sdo), dr) or G.same_td(O_, dr)
+                if diff:
+                    run.oracle_fail("out_lazy", case, f"torch.{fn}(lazy stacks, {dim}, out=lazy stack along {sdo}): out differs from the dense result: {diff}", f"out:{fn}")
+                else:
+                    run.oracle_ok("out_lazy")
+            else:
+                run.oracle_ok("out_lazy_raises")
+        else:
+            run.oracle_ok("out_lazy_skipped")
+
+
 def spec_stream(run, drv, n_cases):
     """the Lean index spec (idxShape/idxCoord) against torch itself"""
     rng = run.rng
@@ -900,6 +1042,8 @@ def spec_stream(run, drv, n_cases):
         try:
             y = x[G.index_py(ix)]
             impl = ["ok", ["shape"] + list(y.shape), ["vals"] + y.reshape(-1).tolist()]
+        except TimeoutError:      # a slow box is an infrastructure problem (exit 2), never a verdict
+            raise
         except Exception:  # noqa: BLE001
             impl = ["err"]
         run.case(("spec", shape, str(ix)))
@@ -914,7 +1058,7 @@ def main():
     run.trusted += [
         "Model/C08Tensor.lean + Model/C08Index.lean: our rendering of torch (stack/select/index as coordinate maps); validated against torch each run (stream spec_vs_torch), not proved",
         "Model/C08Lazy.lean + Model/C08Lazy2.lean: hand transcription of tensordict/_lazy.py (_split_index, __getitem__, __setitem__, shape ops, ...) and _torch_func.py (_lazy_cat, _stack), also over members that are lazy stacks; tied to the source by the correspondence streams of this check",
-        "harness/c08_ast.py + c08_transcribed.json: the 29 transcribed functions are pinned by a digest of their syntax tree (docstrings, string literals, annotations stripped); an edit is reported as a broken [transcription] correspondence until the model is re-read and the table re-pinned",
+        "harness/c08_ast.py + c08_transcribed.json: the 30 transcribed functions are pinned by a digest of their syntax tree (docstrings, string literals, annotations stripped); an edit is reported as a broken [transcription] correspondence until the model is re-read and the table re-pinned",
         "object identity (which positions of a result share a member object) is outside the Lean model (members are values): covered by the oracle stream alias_stream only",
     ]
     run.build_and_audit(["TdVerif.Props.C08"])
@@ -935,6 +1079,7 @@ def main():
     shape2_stream(run, drv, 300 if quick else 5000)
     apply_stream(run, drv, 400 if quick else 6000)
     resize_stream(run, drv, 500 if quick else 8000)
+    out_stream(run, drv, 300 if quick else 5000)
     # extended domain: the property's oracle on every supported operation of the real code
     O.read_ops_stream(run, 1200 if quick else 14000)
     O.mut_ops_stream(run, 800 if quick else 12000)
